@@ -24,7 +24,7 @@
                context operations. *)
 From Coq Require Import String.
 From PG Require Import Lib.Str Model.TALES Model.TALProg Model.TALVM Model.TALCompile Model.TALESEval Model.TALOut Model.TALSpec
-                       Model.TALSpecFull.
+                       Model.TALSpecFull Model.TALDoc.
 Local Open Scope N_scope.
 
 Definition chk_wf (c : program * (symtab * macrotab)) : bool :=
@@ -218,3 +218,35 @@ Definition chk_spec_full (c : (program * (symtab * macrotab)) *
       end
   | _ => false
   end.
+
+(* ---- the document tree of Model/TALDoc.v: its events are the REAL parser's, its specification writes the REAL output ---- *)
+Definition hatt_eqb (a b : str * option str) : bool :=
+  str_eqb (fst a) (fst b) && match snd a, snd b with Some x, Some y => str_eqb x y | None, None => true | _, _ => false end.
+Definition event_eqb (a b : event) : bool :=
+  match a, b with
+  | EvStart t x, EvStart t' x' | EvStartEnd t x, EvStartEnd t' x' => str_eqb t t' && list_eqb hatt_eqb x x'
+  | EvEnd t, EvEnd t' => str_eqb t t'
+  | EvData d c, EvData d' c' => str_eqb d d' && Bool.eqb c c'
+  | EvComment d, EvComment d' | EvDecl d, EvDecl d' | EvPi d, EvPi d' => str_eqb d d'
+  | _, _ => false
+  end.
+
+(* ((document, real parser events), (evaluations, (real output, real number of context operations))):
+   doc_events doc = the real events; no METAL; the tree-walking specification applied to doc_forest doc (no
+   compiler, no program) writes the real output with the real number of context operations; and the model
+   compiler accepts the events *)
+Definition chk_doc (c : (list dnode * list event) * (list ((nat * (str * list (str * str))) * cvalL) * (str * nat))) : bool :=
+  let '((doc, evs), (tbl, (real, nops))) := c in
+  let ev := fun (ver : nat) e orig => evL_lookup tbl ver e orig in
+  let bump := fun (k : nat) (ver : nat) => (ver + k)%nat in
+  let nothing := fun v : cvalL => fst (snd v) in
+  let dflt := fun v : cvalL => fst (snd (snd v)) in
+  let truth := fun v : cvalL => fst (snd (snd (snd v))) in
+  let vlen := fun v : cvalL => snd (snd (snd (snd v))) in
+  let text := fun v : cvalL => fst v in
+  let sp := TALSpecFull.spec_forest cvalL nat ev (bump 1%nat) (bump 1%nat) (fun v _ _ => bump 1%nat v) (fun v _ _ => bump 1%nat v)
+              (fun v _ _ => bump 3%nat v) (fun v _ => bump 1%nat v) (fun v _ => bump 2%nat v) nothing dflt truth text vlen 0%nat
+              (doc_forest doc) in
+  list_eqb event_eqb (doc_events doc) evs && forallb no_metal doc &&
+  str_eqb (fst sp) real && Nat.eqb (snd sp) nops &&
+  match compile repaired (doc_events doc) with COk _ => true | _ => false end.
